@@ -138,8 +138,18 @@ def mesh_tris(verts, faces):
     return np.array(out)
 
 
+_TRI_CACHE = {}
+
+
 def body_tris(case):
     p = case["params"]
+    if case["cls"] == "TriangularMesh":
+        key = (id(p), len(p["faces"]), float(p["vertices"][0][0]), float(p["vertices"][-1][2]))
+        if key not in _TRI_CACHE:
+            if len(_TRI_CACHE) > 64:
+                _TRI_CACHE.clear()
+            _TRI_CACHE[key] = (p, mesh_tris(p["vertices"], p["faces"]))     # p kept alive: id stays unique
+        return _TRI_CACHE[key][1]
     if case["cls"] == "Tetrahedron":
         return tetra_tris(p["vertices"])
     if case["cls"] == "TriangularMesh":
@@ -532,9 +542,10 @@ def _surface_point(rng, case):
         cen = (A + B + C) / 3 - 1e-3 * size_of(case) * n / np.linalg.norm(n)
     d = _unit(rng)
     lo, hi = 0.0, 4.0 * size_of(case)
+    T = body_tris(case) if c in ("Tetrahedron", "TriangularMesh") else None
     for _ in range(60):
         mid = 0.5 * (lo + hi)
-        if inside_and_dist(case, cen + mid * d)[0]:
+        if (point_in_mesh(cen + mid * d, T) if T is not None else inside_and_dist(case, cen + mid * d)[0]):
             lo = mid
         else:
             hi = mid
@@ -732,13 +743,20 @@ def tolerance(case):
     o = np.asarray(case["obs_local"], float)
     _, dist = inside_and_dist(case, o)
     s = size_of(case)
-    tol = 1e-4
-    if dist > 10 * s or c == "CylinderSegment":
-        tol = 1e-3
+    x = max(np.linalg.norm(o - centre_of(case)), s) / s          # distance in source sizes
+    tol = 1e-3 if dist > 10 * s else 1e-4
+    # `at large distances`: the closed forms are sums of O(J) terms cancelling to O(J (s/D)^3);
+    # measured growth on the unchanged tree (worst of 3600 far points per class, per half decade):
+    # Cuboid/Cylinder 1e-9 @10 .. 4e-5 @1e3, Tetrahedron/TriangularMesh 3e-7 @30 .. 7e-4 @1e3,
+    # CylinderSegment 1e-4 @10 .. 1.2e-1 @1e3 sizes
+    if c == "CylinderSegment":
+        tol = 1e-3 + 3e-4 * x
+    elif c in ("Cuboid", "Cylinder"):
+        tol += 1e4 * EPS * x ** 3
     if c in ("Triangle", "Tetrahedron", "TriangularMesh"):
         th = edge_angle(case, o)
-        D = max(np.linalg.norm(o - centre_of(case)), s)
-        tol += 1e3 * EPS / max(th, 1e-150) ** 2 + 1e2 * EPS * (D / s) ** 3
+        # both documented losses multiply for an observer far away AND close to an edge extension
+        tol += 1e3 * EPS / max(th, 1e-150) ** 2 * max(1.0, x) ** 3 + 3e3 * EPS * x ** 4
     return tol
 
 
